@@ -86,7 +86,9 @@ def gen_row(rng, h, p=None):
 
 
 def gen_op(rng, h):
-    k = rng.choice(['meta', 'colmeta', 'colset', 'coladd', 'append', 'append', 'insert', 'setitem', 'extend'])
+    k = rng.choice(['meta', 'colmeta', 'colmeta', 'colset', 'coladd', 'colshare', 'append', 'append', 'insert', 'setitem', 'extend'])
+    if k == 'colshare':
+        return ('colshare', rng.choice(['c0', 'c1']), rng.choice([None, '3.0', '2.0', '2.5']), {t: gen_value(rng, h, False) for t in rng.sample(['k1', 'k2', 'k3'], rng.randint(0, 2))})
     if k == 'meta':
         return ('meta', rng.choice(['m1', 'm2']), gen_value(rng, h))
     if k == 'colmeta':
@@ -107,6 +109,8 @@ def op_values(op):
         return [op[3]]
     if op[0] in ('colset', 'coladd'):
         return list(op[2].values())
+    if op[0] == 'colshare':
+        return list(op[3].values())
     if op[0] == 'append':
         return list(op[1].values())
     if op[0] in ('insert', 'setitem'):
@@ -121,6 +125,8 @@ def enc_op(op):
         return [Sym('colmeta'), op[1], op[2], codec.enc_value(op[3])]
     if op[0] in ('colset', 'coladd'):
         return [Sym(op[0]), op[1], enc_tags(op[2])]
+    if op[0] == 'colshare':
+        return [Sym('colset'), op[1], enc_tags(op[3])]
     if op[0] == 'append':
         return [Sym('append'), enc_tags(op[1])]
     if op[0] in ('insert', 'setitem'):
@@ -137,6 +143,11 @@ def apply_op(h, g, op):
         g.column[op[1]] = dict(op[2])
     elif op[0] == 'coladd':
         g.column.add_item(op[1], dict(op[2]))
+    elif op[0] == 'colshare':
+        # the metadata object of a column of ANOTHER grid (bound to that grid's validator) is stored here
+        src = h.Grid(version=op[2]) if op[2] is not None else h.Grid()
+        src.column[op[1]] = dict(op[3])
+        g.column[op[1]] = src.column[op[1]]
     elif op[0] == 'append':
         g.append(dict(op[1]))
     elif op[0] == 'insert':
@@ -254,7 +265,7 @@ def run(ctx):
 
     # ---- 2. histories
     histories = []
-    stores = ['meta', 'colmeta', 'colset', 'coladd', 'append', 'insert', 'setitem', 'extend']
+    stores = ['meta', 'colmeta', 'colset', 'coladd', 'append', 'insert', 'setitem', 'extend']     # + 'colshare' histories below
     for ver in VERSIONS:
         for k in KIND_NAMES:
             v = lambda: sample_of_kind(h, k)
@@ -273,6 +284,8 @@ def run(ctx):
                 else:
                     op = ('extend', [{'a': 1.0}, {'a': v()}, {'a': 2.0}])
                 histories.append((ver, pre + [op, ('append', {'z': 'after'})]))
+            for sv in (None, '3.0', '2.0'):
+                histories.append((ver, [('colshare', 'c0', sv, {'k0': 'plain'}), ('colmeta', 'c0', 'k1', v()), ('append', {'a': 1.0})]))
     for _ in range(6000 if thorough else 700):
         histories.append((rng.choice(VERSIONS), [gen_op(rng, h) for _ in range(rng.randint(1, 6))]))
     cmds = []
